@@ -246,13 +246,33 @@ func (lsys *LinkSystem) Store(lnkCtx LinkContext, lp datamodel.LinkPrototype, n 
 	if err != nil {
 		return nil, err
 	}
-	tee := io.MultiWriter(writer, hasher)
+	// Not every encoder reports the errors of the writer it is given (the JSON ones do not),
+	// so remember the first storage write error ourselves: a block the storage failed to take must not be committed.
+	storageWriter := &firstErrWriter{w: writer}
+	tee := io.MultiWriter(storageWriter, hasher)
 	err = encoder(n, tee)
 	if err != nil {
 		return nil, err
 	}
+	if storageWriter.err != nil {
+		return nil, storageWriter.err
+	}
 	lnk := lp.BuildLink(hasher.Sum(nil))
 	return lnk, commitFn(lnk)
+}
+
+// firstErrWriter passes writes through and keeps the first error the underlying writer returned.
+type firstErrWriter struct {
+	w   io.Writer
+	err error
+}
+
+func (fw *firstErrWriter) Write(p []byte) (int, error) {
+	n, err := fw.w.Write(p)
+	if err != nil && fw.err == nil {
+		fw.err = err
+	}
+	return n, err
 }
 
 func (lsys *LinkSystem) MustStore(lnkCtx LinkContext, lp datamodel.LinkPrototype, n datamodel.Node) datamodel.Link {
